@@ -35,16 +35,34 @@ pub fn gen_fft_case(ctx: &mut Ctx, max_log: usize) -> FftCase {
         2 => (size / 2 + 1).min(size),
         _ => ctx.rng.range(if inverse { 1 } else { 1 }, size),
     };
-    // skew offset: aligned to the size (as the codecs use it), or anything inside the table
-    let delta = match ctx.rng.below(4) {
+    // skew offset: aligned to the size (as the codecs use it), anything inside the table, or one
+    // that makes a twiddle of some processed block the zero element (skew[i] = 65535 iff i+1 = 2^e):
+    // index = r + c*dist + delta - 1 with c in {1,2,3}
+    let delta = match ctx.rng.below(6) {
         0 => 0,
         1 => size * ctx.rng.range(0, (65536 / size) - 1),
         2 => 65536 - size,
+        3 | 4 => {
+            let l = ctx.rng.below(n.max(1));
+            let dist = 1usize << l;
+            let r = if size > 2 * dist { (ctx.rng.below(size / (2 * dist))) * 2 * dist } else { 0 };
+            let c = ctx.rng.range(1, 3);
+            let e = ctx.rng.range(0, 16);
+            let target = 1usize << e;
+            let want = target as isize - (r + c * dist) as isize;
+            if want >= 0 && (want as usize) + size <= 65536 { want as usize } else { ctx.rng.range(0, 65536 - size) }
+        }
         _ => ctx.rng.range(0, 65536 - size),
     };
     let mut data = vec![[0u8; 64]; count * len64];
+    let content = ctx.rng.below(4);
     for b in data.iter_mut() {
-        b.copy_from_slice(&ctx.rng.bytes(64));
+        // content classes: random; block-sparse (zero blocks next to non-zero ones); few distinct blocks
+        match content {
+            1 => { if ctx.rng.chance(1, 2) { b.copy_from_slice(&ctx.rng.bytes(64)); } }
+            2 => { let v = ctx.rng.below(3) as u8; *b = [v; 64]; }
+            _ => b.copy_from_slice(&ctx.rng.bytes(64)),
+        }
     }
     if inverse {
         for p in pos + trunc..pos + size {
